@@ -27,6 +27,12 @@ class Field(object):
         self.obj, self.name = obj, name
 
 
+class Fresh(object):
+    """frame entry: attribute `name` may be written on objects allocated during the call only"""
+    def __init__(self, name):
+        self.name = name
+
+
 class Param(object):
     """frame entry: the container passed as parameter `name` may be mutated"""
     def __init__(self, name):
@@ -142,6 +148,9 @@ class Ctx(object):
     def fresh_obj(self, v):
         """v is an instance allocated during the call"""
         from .symexec import ALLOC0
+        lo, hi = getattr(self, "block", (None, None))
+        if lo is not None:
+            return z3.And(V.is_obj(v), Val.ref(v) >= lo, Val.ref(v) < hi)
         return z3.And(V.is_obj(v), Val.ref(v) >= ALLOC0)
 
 
@@ -179,7 +188,8 @@ def bind_arguments(fn, args, kwargs, ex):
         if name in ba.arguments:
             v = ba.arguments[name]
             if p.kind == p.VAR_POSITIONAL:
-                v = V.mk_tuple([ex.lift(x) for x in v])
+                from .symexec import BoundMeth as _BM
+                v = V.mk_tuple([(ex.reify(None, x) if isinstance(x, _BM) else ex.lift(x)) for x in v])
             elif p.kind == p.VAR_KEYWORD:
                 d = V.empty_dict()
                 for k2, v2 in v.items():
@@ -210,8 +220,9 @@ class CallCtx(object):
         """Use contract `con` at a call site: assert requires, havoc the frame, assume ensures."""
         from .symexec import Obligation, Meta
         bound = bind_arguments(fn, args, kwargs, ex)
-        bound = {k: ex.lift(v) for k, v in bound.items()}
         st = st.copy()
+        from .symexec import BoundMeth
+        bound = {k: (ex.reify(st, v) if isinstance(v, BoundMeth) else ex.lift(v)) for k, v in bound.items()}
         tag = "%s" % V._counter[0]
         # static class knowledge for arguments declared as instances
         for name, v in bound.items():
@@ -267,6 +278,17 @@ class CallCtx(object):
                     nv = V.fresh("new_" + m.name)
                     arr = z3.Store(cur, Val.ref(target), nv)
                 new_arrays[m.name] = arr
+            elif isinstance(m, Fresh):
+                base = new_arrays.get(m.name)
+                if base is None:
+                    base = old_heap[m.name] if m.name in old_heap else _init(st, m.name)
+                    snap[m.name] = base
+                hav = z3.Array("H!%s!%s" % (m.name, tag), z3.IntSort(), Val)
+                from .symexec import ALLOC0 as _A0
+                r = z3.Int("r!fresh")
+                # pre-existing objects keep their value; only references allocated by the callee are havocked
+                arr = z3.Lambda([r], z3.If(r < _A0 + st.nalloc, z3.Select(base, r), z3.Select(hav, r)))
+                new_arrays[m.name] = arr
             elif isinstance(m, Param):
                 param_after[m.name] = V.fresh("after_" + m.name)
             elif isinstance(m, Ghost):
@@ -291,17 +313,13 @@ class CallCtx(object):
         # exceptions raised by the callee are allocated by it
         from .symexec import ALLOC0
         nbefore = st.nalloc
-        # the callee may allocate: reserve a block of references for it (ret/exc objects live there)
-        st.nalloc += 8
+        # the callee may allocate: reserve a block of references for it (objects it creates live there)
+        st.nalloc += 16
         post_ctx = Ctx(ex, bound, old_arr, new_arr, gold, gnew, ret, raised, exc,
                        lambda n: param_after.get(n, bound[n]), st)
+        post_ctx.block = (ALLOC0 + nbefore, ALLOC0 + nbefore + 16)
         for k, v in new_ghost_vals.items():
             st.ghost[k] = v
-        st.assume(z3.Implies(raised, z3.And(excref >= ALLOC0 + nbefore, excref < ALLOC0 + nbefore + 8)))
-        st.assume(z3.Implies(z3.And(z3.Not(raised), V.is_obj(ret), Val.ref(ret) >= ALLOC0),
-                             z3.Or(Val.ref(ret) < ALLOC0 + nbefore + 0 if False else z3.BoolVal(False),
-                                   z3.And(Val.ref(ret) >= ALLOC0 + nbefore, Val.ref(ret) < ALLOC0 + nbefore + 8),
-                                   Val.ref(ret) < ALLOC0 + nbefore)))
         for label, fn_ens, props in con.ensures:
             st.assume(fn_ens(post_ctx))
         out = []
